@@ -211,7 +211,8 @@ def processor(proc, enc, hexbm=False, prior=None):
             msg[e2.key] = e2.value
 
         def rp():
-            return {'kind': 'processor', 'args': {'proc': proc, 'bit': bit, 'n': ev(n), 'other': other, 'enc': enc, 'hexbm': hexbm, 'prior': prior}}
+            return {'kind': 'processor', 'args': {'proc': proc, 'bit': bit, 'n': ev(n), 'other': other, 'enc': enc, 'hexbm': hexbm, 'prior': prior,
+                                                 'content': concretize(v, ev)}}
         core.set_fallback(rp, 'C16/concretised')
         wire = iso.dumps(dict(msg), encoding=enc, iso_config=cfgs, hex_bitmap=hexbm)
         with guard('loads under a masking configuration', 'C16/exception', rp):
